@@ -144,8 +144,18 @@ func VerifNewDP(cfg VerifConfig) (*VerifDP, error) {
 	if cfg.BatchSize == 0 {
 		cfg.BatchSize = 8
 	}
-	d := newDataPlane(RunConfig{NumProcessors: 1, NumSlowPathProcessors: 1,
-		BatchSize: cfg.BatchSize}, cfg.SCMPAuth)
+	// Same field values as makeDataPlane, but allocated in place: newDataPlane builds the 2 MB
+	// struct by value and copies it (every page touched twice); with hundreds of routers per run
+	// (line topologies of 64 ASes) that dominates the harness' run time.
+	rc := RunConfig{NumProcessors: 1, NumSlowPathProcessors: 1, BatchSize: cfg.BatchSize}
+	d := &dataPlane{
+		underlays: map[string]UnderlayProvider{
+			"udpip": underlayProviders["udpip"](rc.BatchSize, rc.ReceiveBufferSize, rc.SendBufferSize),
+		},
+		Metrics:                        metrics,
+		ExperimentalSCMPAuthentication: cfg.SCMPAuth,
+		RunConfig:                      rc,
+	}
 	if cfg.ConnOpener == nil {
 		cfg.ConnOpener = VerifConnOpener{ReuseLocal: !cfg.SiblingDetached}
 	}
